@@ -259,10 +259,13 @@ def rule_B3_bind(tree: Tree) -> RuleResult:
         f = tree.func(mod, qn)
         r.instances += 1
         key = f"{mod}:{qn}:role-binding"
-        ifs = [s for s in strip_stmts(f.node.body) if isinstance(s, ast.If)]
+        top = strip_stmts(f.node.body)
+        ifs = [s for s in top if isinstance(s, ast.If)]
         ok = False
         why = "no `if <src port> in server_ports` statement found"
         for n in ifs:
+            if not n.orelse and n.body and isinstance(n.body[-1], (ast.Return, ast.Raise)):
+                n.orelse = top[top.index(n) + 1:]  # flattened form: the rest of the function is the else arm
             t = n.test
             if (isinstance(t, ast.Compare) and len(t.ops) == 1 and isinstance(t.ops[0], ast.In)):
                 lhs = (dotted(t.left) or "").split(".")[-1]
